@@ -14,7 +14,7 @@ import sys
 from detsim.core import HistoryWorld, Violation, StopRun
 from refmodel import boc as refboc, hashmap, tlb
 from refmodel.rcell import RCell, RCellError, pruned_of, merkle_proof_of, merkle_update_of, library_ref_of
-from .common import (call, to01, tvm_bits, lib_cell_from_rcell, rcell_from_lib, struct_diff, Cell, Builder, Slice, bitarray)
+from .common import (call, to01, tvm_bits, lib_cell_from_rcell, rcell_from_lib, struct_diff, Cell, Builder, Slice, bitarray, Address, ExternalAddress, addr_tuple)
 from .build import _rbits
 
 from pytoniq_core.boc.hashmap import HashMap
@@ -207,7 +207,7 @@ class PoolWorld(HistoryWorld):
             return {'op': 'import', 'c': self._ref(rng), 'idx': f[0], 'crc': f[1], 'cache': f[2], 'size_extra': rng.choice([0, 0, 1]), 'off_extra': rng.choice([0, 0, 2]),
                     'shuffle': rng.getrandbits(16), 'entry': rng.choice(['one', 'list']), 'caller': caller}
         if r < 0.86:
-            return {'op': 'slice_to_cell', 'c': self._ref(rng), 'skip_bits': rng.choice([0, 0, 1, 7, 8, rng.randint(0, 64)]), 'skip_refs': rng.choice([0, 0, 1, 2]), 'after_bits': rng.choice([0, 0, 1, 8, 33]), 'after_refs': rng.choice([0, 0, 1]), 'caller': caller}
+            return {'op': 'slice_to_cell', 'c': self._ref(rng), 'skip_bits': rng.choice([0, 0, 1, 7, 8, rng.randint(0, 64)]), 'skip_refs': rng.choice([0, 0, 1, 2, 4]), 'how': rng.choice(['to_cell', 'to_cell', 'to_builder', 'store_slice', 'copy_to_cell']), 'after_bits': rng.choice([0, 0, 1, 8, 33]), 'after_refs': rng.choice([0, 0, 1]), 'caller': caller}
         return {'op': 'via_builder', 'c': self._ref(rng), 'more_bits': _rbits(rng, rng.choice([0, 0, 1, 8])), 'more_ref': self._ref(rng) if rng.random() < 0.4 else None, 'caller': caller}
 
     def _gen_c01(self, st, rng, cfg):
@@ -262,13 +262,17 @@ class PoolWorld(HistoryWorld):
             n = rng.choice([2, 8, 16])
             return {'op': 'mk_dict', 'n': n, 'm': sorted([rng.getrandbits(n), rng.getrandbits(8)] for _ in range(rng.randint(1, 4))), 'caller': k}
         if kind == 'vm':
-            return {'op': 'vm_serialize', 'items': _vm_items(rng, 2), 'caller': k}
+            return {'op': 'vm_serialize', 'items': _vm_items(rng, 2), 'parse': rng.random() < 0.6, 'consume': rng.choice([1, 8, 1023]), 'caller': k}
         if kind == 'parse_blob':
             return {'op': 'parse', 'blob': rng.randrange(1 << 16), 'enc': rng.choice(['bytes', 'hex', 'b64']), 'entry': rng.choice(['cell_one', 'slice', 'builder']), 'caller': k}
         if kind == 'repr':
             return {'op': 'repr', 'c': ref, 'caller': k}
         if kind == 'tlb_parse':
             return {'op': 'tlb_parse', 'c': ref, 'what': rng.choice(['message', 'account', 'stateinit']), 'caller': k}
+        if kind == 'tlb_wellformed':
+            # a well-formed message / account / state-init built by the reference model joins the caller's cells and is parsed
+            # (twice), its fields are the observation; messages are serialised again from the parsed value
+            return {'op': 'tlb_wellformed', 'what': rng.choice(['message', 'message', 'account', 'stateinit', 'shard_account']), 'seed': rng.getrandbits(32), 'again': rng.random() < 0.5, 'caller': k}
         raise AssertionError(kind)
 
     # ---------------- execution ----------------
@@ -533,7 +537,17 @@ class PoolWorld(HistoryWorld):
                 s.skip_bits(sb)
             for _ in range(sr):
                 s.load_ref()
-            c = s.to_cell()
+            how = op.get('how', 'to_cell')
+            if how == 'to_builder':
+                c = s.to_builder().end_cell()
+            elif how == 'store_slice':
+                c = Builder().store_slice(s).end_cell()
+            elif how == 'copy_to_cell':
+                c = s.copy().to_cell()
+            else:
+                c = s.to_cell()
+            if sr == len(t.refs) and sr:
+                ctx.probe('slice-converted-after-all-its-references-were-read')
             # the slice stays in use after the conversion
             ab = min(op.get('after_bits', 0), len(twin.bits))
             if ab:
@@ -546,7 +560,7 @@ class PoolWorld(HistoryWorld):
         ok, c = call(mk)
         if not ok:
             return 'raised:' + type(c).__name__
-        self._register(st, st.callers[k].cells, c, twin, ctx, 'slice_to_cell')
+        self._register(st, st.callers[k].cells, c, twin, ctx, 'slice_' + op.get('how', 'to_cell'))
         return c.hash.hex()
 
     def op_via_builder(self, st, op, ctx, k):
@@ -832,6 +846,48 @@ class PoolWorld(HistoryWorld):
         ok, r = call(lambda: cls.deserialize(e['lib'].begin_parse()))
         return 'parsed' if ok else 'raised:' + type(r).__name__
 
+    def op_tlb_wellformed(self, st, op, ctx, k):
+        import random as _random
+        from pytoniq_core.tlb.transaction import MessageAny
+        from pytoniq_core.tlb.account import Account, StateInit, ShardAccount
+        from refmodel import chain as rc
+        wr = _random.Random(op['seed'])
+        what = op['what']
+        if what == 'message':
+            twin, cls = rc.make_message(wr), MessageAny
+        elif what == 'account':
+            twin, cls = rc.make_account(wr, wr.choice([0, -1]), bytes(wr.getrandbits(8) for _ in range(32)), extra_currencies=True), Account
+        elif what == 'stateinit':
+            twin, cls = rc.make_state_init(wr), StateInit
+        else:
+            acc = rc.make_account(wr, 0, bytes(wr.getrandbits(8) for _ in range(32)), extra_currencies=True)
+            twin, cls = RCell(rc.rbits(wr, 256) + tlb.enc_uint(wr.getrandbits(48), 64), (acc,)), ShardAccount
+        ok, c = call(lib_cell_from_rcell, twin)
+        if not ok:
+            return 'construct-raised'
+        cal = st.callers[k]
+        self._register(st, cal.cells, c, twin, ctx, 'tlb')
+        ctx.probe('well-formed-tlb-value-parsed/' + what)
+
+        def go():
+            return _freeze(cls.deserialize(c.begin_parse()))
+        ok, r = call(go)
+        ok2, r2 = call(go)
+        if ok != ok2 or (ok and r != r2):
+            self.V(ctx, 'repeat-differs', cls.__name__ + '.deserialize', what, 'parsing the same %s cell twice gave different results' % what)
+        if not ok:
+            return 'raised:' + type(r).__name__
+        out = [r]
+        if what in ('message', 'stateinit') and op.get('again'):
+            def ser():
+                return cls.deserialize(c.begin_parse()).serialize().hash.hex()
+            ok3, h = call(ser)
+            ok4, h2 = call(ser)
+            if ok3 != ok4 or (ok3 and h != h2):
+                self.V(ctx, 'repeat-differs', cls.__name__ + '.serialize', what, 'serialising the parsed %s twice gave different cells' % what)
+            out.append(h if ok3 else 'raised:' + type(h).__name__)
+        return out
+
     def op_vm_serialize(self, st, op, ctx, k):
         from pytoniq_core.tlb.vm_stack import VmStack
         cal = st.callers[k]
@@ -849,6 +905,23 @@ class PoolWorld(HistoryWorld):
         if ok2 and c2.hash != c1.hash:
             self.V(ctx, 'repeat-differs', 'VmStack.serialize', 'tuple' if 'tuple' in repr(op['items']) else 'list', 'serialising the same stack twice gave different cells')
         self._register(st, cal.cells, c1, None, ctx, 'vm')
+        if op.get('parse'):
+            # the stack cell is parsed back, the caller reads from the slices it was handed (they are its own), and the cell tree
+            # must still be what it was: bits of EVERY cell below the stack cell, and a second parse gives the same values
+            deep0 = _deep_bits(c1)
+            ok3, got = call(lambda: VmStack.deserialize(c1.begin_parse()))
+            if not ok3:
+                return [c1.hash.hex(), 'parse-raised:' + type(got).__name__]
+            first = _vm_snap(got)
+            ctx.probe('parsed-stack-values-consumed-by-the-caller')
+            call(_vm_consume, got, op.get('consume', 5))
+            deep1 = _deep_bits(c1)
+            if deep0 != deep1:
+                self.V(ctx, 'cell-changed', 'VmStack.deserialize', 'cell-under-parsed-stack', 'reading from the slices returned by VmStack.deserialize changed the data of a cell under the parsed stack cell')
+            ok4, again = call(lambda: VmStack.deserialize(c1.begin_parse()))
+            if not ok4 or _vm_snap(again) != first:
+                self.V(ctx, 'repeat-differs', 'VmStack.deserialize', 'after-consuming-first-result', 'parsing the same stack cell again after the first result was read from gave other values')
+            return [c1.hash.hex(), str(first)[:400]]
         return c1.hash.hex()
 
     # --- C08 invariants ---
@@ -945,7 +1018,7 @@ class Subctx:
     obs = probe
 
 
-C08_OPS = ['create', 'create', 'create', 'to_boc', 'order', 'order', 'hash', 'eq', 'parse_load', 'builder_store', 'from_builder', 'parse_dict', 'mk_dict', 'vm', 'parse_blob', 'repr', 'tlb_parse']
+C08_OPS = ['create', 'create', 'create', 'to_boc', 'order', 'order', 'hash', 'eq', 'parse_load', 'builder_store', 'from_builder', 'parse_dict', 'mk_dict', 'vm', 'parse_blob', 'repr', 'tlb_parse', 'tlb_wellformed', 'tlb_wellformed']
 
 
 def _snapdiff(a, b):
@@ -1102,6 +1175,36 @@ def _vm_items(rng, depth):
     return out
 
 
+def _deep_bits(root):
+    out = []
+    seen = set()
+    stack = [root]
+    while stack:
+        c = stack.pop()
+        if id(c) in seen:
+            continue
+        seen.add(id(c))
+        out.append((c.hash, to01(c.bits), len(c.refs)))
+        stack.extend(c.refs)
+    return out
+
+
+def _vm_consume(vals, n):
+    from pytoniq_core.tlb.vm_stack import VmTuple
+    for v in vals:
+        if isinstance(v, VmTuple):
+            _vm_consume(list(v.list), n)
+        elif isinstance(v, Slice):
+            k = min(n, v.remaining_bits)
+            if k:
+                v.load_bits(k)
+            if v.remaining_refs:
+                v.load_ref()
+        elif isinstance(v, Builder):
+            if v.available_bits:
+                v.store_bit(1)
+
+
 def _vm_build(items, pool):
     from pytoniq_core.tlb.vm_stack import VmTuple
     out = []
@@ -1124,6 +1227,39 @@ def _vm_build(items, pool):
         elif k == 'tuple':
             out.append(VmTuple(_vm_build(it[1], pool)))
     return out
+
+
+def _freeze(v, depth=0, seen=None):
+    """Comparable, JSON-able form of whatever a TL-B deserialiser returned (objects by class name and attributes)."""
+    if seen is None:
+        seen = set()
+    if depth > 12:
+        return '...'
+    if v is None or isinstance(v, (bool, int, str)):
+        return v
+    if isinstance(v, (bytes, bytearray)):
+        return 'bytes:' + bytes(v).hex()
+    if isinstance(v, Cell):
+        return 'cell:' + v.hash.hex()
+    if isinstance(v, Slice):
+        return ['slice', to01(v.bits), [r.hash.hex() for r in v.refs[v.ref_offset:]]]
+    if isinstance(v, Builder):
+        return ['builder', to01(v.bits), [r.hash.hex() for r in v.refs]]
+    if isinstance(v, Address):
+        return ['addr', list(map(str, addr_tuple(v)))]
+    if isinstance(v, ExternalAddress):
+        return ['addr', list(map(str, addr_tuple(v)))]
+    if isinstance(v, dict):
+        return ['dict', sorted([str(k), _freeze(x, depth + 1, seen)] for k, x in v.items())]
+    if isinstance(v, (list, tuple)):
+        return ['list', [_freeze(x, depth + 1, seen) for x in v]]
+    if id(v) in seen:
+        return 'cycle'
+    seen = seen | {id(v)}
+    d = getattr(v, '__dict__', None)
+    if d is not None:
+        return [type(v).__name__, sorted([k, _freeze(x, depth + 1, seen)] for k, x in d.items())]
+    return 'obj:' + type(v).__name__
 
 
 def _vm_snap(vals):
